@@ -41,7 +41,8 @@ def gen_report(rng):
     for p in paths:
         lang = rng.choice(["Python", "C", "JavaScript", gen_str(rng, "Lang")])
         ms = [(gen_str(rng, f"f{i}"), rng.choice([1, 15, 16, 30, 31, 61])) for i in range(rng.choice([0, 1, 2, 3]))]
-        entries.append((p, gen_str(rng, "abc123"), lang, ms, rng.random() < 0.8))
+        # loc: the sum of the measurements, or an unrelated stored number — including 0, which is a number, not "missing"
+        entries.append((p, gen_str(rng, "abc123"), lang, ms, rng.choice([True, True, True, 7, 0])))
     repo = None
     if rng.random() < 0.5:
         repo = (gen_str(rng, "owner"), gen_str(rng, "name"), None if rng.random() < 0.3 else gen_str(rng, "main"))
@@ -60,7 +61,7 @@ def impl_report(spec):
     cb = Codebase(spec["root"])
     for path, ck, lang, ms, loc_is_sum in spec["entries"]:
         mm = [Measurement(n, Location(i + 1, 1), Location(i + 2, 3), v) for i, (n, v) in enumerate(ms)]
-        cb.add_file(SourceFileEntry(path, ck, lang, sum(v for _, v in ms) if loc_is_sum else 7, mm))
+        cb.add_file(SourceFileEntry(path, ck, lang, sum(v for _, v in ms) if loc_is_sum is True else loc_is_sum, mm))
     cb.aggregate()
     rp = spec["repository"]
     rep = Report(cb, GithubRepository(rp[0], rp[1], branch=rp[2]) if rp else None)
@@ -72,7 +73,7 @@ def impl_report(spec):
 
 def model_report(spec):
     es = coq_list(
-        "mk_entry %s %s %s %s %s" % (LC.pystr(p), LC.pystr(ck), LC.pystr(lang), z(sum(v for _, v in ms) if lis else 7), coq_list(
+        "mk_entry %s %s %s %s %s" % (LC.pystr(p), LC.pystr(ck), LC.pystr(lang), z(sum(v for _, v in ms) if lis is True else lis), coq_list(
             "mkMeas %s (mkLoc %d 1) (mkLoc %d 3) %s" % (LC.pystr(n), i + 1, i + 2, z(v)) for i, (n, v) in enumerate(ms)))
         for p, ck, lang, ms, lis in spec["entries"])
     rp = spec["repository"]
